@@ -16,10 +16,20 @@ for i in ids:
     except Exception:
         pass
     t0 = time.time()
-    p = subprocess.run([f'{V}/tools/mutant.sh', i, f'patch:{V}/seeded/{i}/patch.diff', prop], capture_output=True, text=True,
-                       env=dict(os.environ, MUTANT_ARGS='--no-legs'))
-    out = p.stdout + p.stderr
-    verdict = 'VIOLATED' if re.search(r'^VIOLATED', out, re.M) else ('HELD' if re.search(r'^HELD', out, re.M) else 'INCONCLUSIVE')
+    # changes that only show under conditions another property's check is responsible for (device
+    # errors -> C11, a write reported wrongly -> C01): that check is run too when the own one holds
+    EXTRA = {'C02-r4': ['C01'], 'C03-r4': ['C11'], 'C05-r4': ['C11'], 'C07-r4': ['C11'], 'C09-r4': ['C11']}
+    caught_by = None
+    checks_run = []
+    for chk in [prop] + EXTRA.get(i, []):
+        p = subprocess.run([f'{V}/tools/mutant.sh', i, f'patch:{V}/seeded/{i}/patch.diff', chk], capture_output=True, text=True,
+                           env=dict(os.environ, MUTANT_ARGS='--no-legs'))
+        out = p.stdout + p.stderr
+        verdict = 'VIOLATED' if re.search(r'^VIOLATED', out, re.M) else ('HELD' if re.search(r'^HELD', out, re.M) else 'INCONCLUSIVE')
+        checks_run.append(f'{chk}: {verdict}')
+        if verdict == 'VIOLATED':
+            caught_by = chk
+            break
     sigs = re.findall(r'^  \[([^\]]+)\]', out, re.M)
     sigs = [s for s in sigs][:4]
     meta = {
@@ -30,7 +40,8 @@ for i in ids:
         'agent_ran': am.get('ran', ''),
         'confirmed_by_me': 'tools/confirm_seeded.sh: demo passes on clean tree, fails with patch; baseline `cargo test --offline` green with patch',
         'check_run': f'tools/mutant.sh {i} patch:/verif/seeded/{i}/patch.diff {prop}  (= SDV_REPO=<scratch worktree> ./check {prop} --no-evidence --no-legs)',
-        'verdict_of_quick_check': verdict,
+        'verdict_of_quick_check': verdict if caught_by in (None, prop) else f'VIOLATED (by {caught_by}; own check {prop}: HELD - the change needs ' + ('block-device errors' if caught_by == 'C11' else 'a misreported write') + ')',
+        'checks_run': checks_run,
         'first_signatures': sigs,
         'wall_s': round(time.time() - t0, 1),
     }
